@@ -160,10 +160,10 @@ Proof. reflexivity. Qed.
 
 Theorem remap_path_plain old new comps :
   forallb good old = true -> forallb good new = true -> forallb good comps = true -> comps <> [] ->
-  has_colon_slash (abs (old ++ comps)) = false ->
   remap_path (abs old) (abs new) (abs (old ++ comps)) = Some (abs (new ++ comps)).
 Proof.
-  intros Ho Hn Hc Hne Hcs. unfold remap_path. rewrite Hcs. apply remap_plain_under; assumption.
+  intros Ho Hn Hc Hne. unfold remap_path. rewrite scheme_abs. simpl negb. rewrite andb_false_r.
+  apply remap_plain_under; assumption.
 Qed.
 
 Definition file_loc (l : list string) : string := String.append "file://" (quote (abs l)).
@@ -176,17 +176,16 @@ Proof.
   change (has_colon_slash (String.append "file://" (quote (abs (old ++ comps))))) with true.
   change (scheme_of (String.append "file://" (quote (abs (old ++ comps))))) with "file".
   change (drop 7 (String.append "file://" (quote (abs (old ++ comps))))) with (quote (abs (old ++ comps))).
-  simpl String.eqb. cbv iota. rewrite unquote_quote.
+  simpl String.eqb. simpl negb. simpl andb. cbv iota. rewrite unquote_quote.
   rewrite remap_plain_under by assumption. reflexivity.
 Qed.
 
 Theorem roundtrip_plain old new comps :
   forallb good old = true -> forallb good new = true -> forallb good comps = true -> comps <> [] ->
-  has_colon_slash (abs (old ++ comps)) = false -> has_colon_slash (abs (new ++ comps)) = false ->
   exists p', remap_path (abs old) (abs new) (abs (old ++ comps)) = Some p' /\
              remap_path (abs new) (abs old) p' = Some (abs (old ++ comps)).
 Proof.
-  intros Ho Hn Hc Hne H1 H2. exists (abs (new ++ comps)).
+  intros Ho Hn Hc Hne. exists (abs (new ++ comps)).
   split; apply remap_path_plain; assumption.
 Qed.
 
@@ -200,9 +199,10 @@ Proof.
 Qed.
 
 Theorem other_scheme_unchanged old new p :
-  has_colon_slash p = true -> scheme_of p <> "file" -> remap_path old new p = Some p.
+  has_colon_slash p = true -> scheme_of p <> "" -> scheme_of p <> "file" -> remap_path old new p = Some p.
 Proof.
-  intros H1 H2. unfold remap_path. rewrite H1.
+  intros H1 H0 H2. unfold remap_path. rewrite H1.
+  destruct (String.eqb_spec (scheme_of p) ""); [congruence|]. simpl.
   destruct (String.eqb_spec (scheme_of p) "file"); [congruence|reflexivity].
 Qed.
 
@@ -432,13 +432,11 @@ Proof. destruct v; simpl; trivial. Qed.
 (* ---------- values whose file strings are all in the domain of the path theorems ---------- *)
 Inductive in_domain (old new : list string) : string -> Prop :=
 | dom_plain comps :
-    forallb good comps = true -> comps <> [] ->
-    has_colon_slash (abs (old ++ comps)) = false -> has_colon_slash (abs (new ++ comps)) = false ->
-    in_domain old new (abs (old ++ comps))
+    forallb good comps = true -> comps <> [] -> in_domain old new (abs (old ++ comps))
 | dom_file comps :
     forallb good comps = true -> comps <> [] -> in_domain old new (file_loc (old ++ comps))
 | dom_other p :
-    has_colon_slash p = true -> scheme_of p <> "file" -> in_domain old new p.
+    has_colon_slash p = true -> scheme_of p <> "" -> scheme_of p <> "file" -> in_domain old new p.
 
 Theorem value_roundtrip_in_domain old new v v' :
   forallb good old = true -> forallb good new = true ->
@@ -447,11 +445,11 @@ Theorem value_roundtrip_in_domain old new v v' :
   remap_token_value (abs new) (abs old) v' = Some v.
 Proof.
   intros Ho Hn Hf Hd. apply (token_value_roundtrip (abs old) (abs new) v v' Hf).
-  intros s Hs s' H1. destruct (Hd s Hs) as [comps Hc Hne C1 C2|comps Hc Hne|p C S].
-  - rewrite (remap_path_plain old new comps Ho Hn Hc Hne C1) in H1. injection H1 as H1. subst s'.
+  intros s Hs s' H1. destruct (Hd s Hs) as [comps Hc Hne|comps Hc Hne|p C S0 S].
+  - rewrite (remap_path_plain old new comps Ho Hn Hc Hne) in H1. injection H1 as H1. subst s'.
     apply remap_path_plain; assumption.
   - rewrite (remap_path_file old new comps Ho Hn Hc Hne) in H1. injection H1 as H1. subst s'.
     apply remap_path_file; assumption.
-  - rewrite (other_scheme_unchanged (abs old) (abs new) p C S) in H1. injection H1 as H1. subst s'.
+  - rewrite (other_scheme_unchanged (abs old) (abs new) p C S0 S) in H1. injection H1 as H1. subst s'.
     apply other_scheme_unchanged; assumption.
 Qed.
